@@ -34,6 +34,11 @@ def read_fcidump(fname, norb):
                 eri[q-1,p-1,r-1,s-1] = integral
                 eri[p-1,q-1,s-1,r-1] = integral
                 eri[q-1,p-1,s-1,r-1] = integral
+                # (pq|rs) = (rs|pq): a FCIDUMP file may list only the unique integrals
+                eri[r-1,s-1,p-1,q-1] = integral
+                eri[s-1,r-1,p-1,q-1] = integral
+                eri[r-1,s-1,q-1,p-1] = integral
+                eri[s-1,r-1,q-1,p-1] = integral
             elif p != 0:
                 h[p-1,q-1] = integral
                 h[q-1,p-1] = integral
